@@ -150,7 +150,10 @@ def run_program(rng, res, pid):
                 elif op == 'resize_rejected':
                     # a resize that is rejected (dtype= together with another size parameter) leaves the object as it was
                     before = (A_fmt(x), lib.codes_of(x) if not np.iscomplexobj(x.val) else None, x.dtype)
-                    try: x.resize(signed=not x.signed, dtype='fxp-%s%d/%d' % ('u' if x.signed else 's', x.n_word, x.n_frac)); rejected = False
+                    try:
+                        if rng.random() < 0.5: x.resize(signed=not x.signed, dtype='fxp-%s%d/%d' % ('u' if x.signed else 's', x.n_word, x.n_frac))
+                        else: x.resize(signed=rng.choice([2, 3, -1, 7]))       # (an integer that is neither 0 nor 1: accepted by its truth value, or rejected - never half of each)
+                        rejected = False
                     except ValueError: rejected = True
                     after = (A_fmt(x), lib.codes_of(x) if not np.iscomplexobj(x.val) else None, x.dtype)
                     if rejected and after != before:
